@@ -126,10 +126,11 @@ def exProg : Prog :=
           .ret (.var 2) },
       -- def f1(p0: Optional[K0], p1: int) -> int:
       --     v0: int = 0
+      --     if not p0: return 0 - 1
+      --     probe(4, p0)                           # K0
       --     while v0 < p1:
       --         v0 = v0 + 1
-      --         if not p0: break
-      --         probe(4, p0)                       # K0
+      --         if p0 is None: break
       --         if isinstance(p0, K1): continue
       --         p0 = p0.a0
       --     probe(5, p0)                           # K0 | None
@@ -137,10 +138,11 @@ def exProg : Prog :=
       { params := [[.cls 0, .none], [.int]], locals := [[.int]], ret := [.int],
         body :=
           .seq (.decl 2 (.intLit 0)) <|
+          .seq (.ite (.not (.var 0)) (.ret (.sub (.intLit 0) (.intLit 1))) .pass) <|
+          .seq (.expr (.probe 4 (.var 0))) <|
           .seq (.while (.lt (.var 2) (.var 1))
                  (.seq (.assign 2 (.add (.var 2) (.intLit 1))) <|
-                  .seq (.ite (.not (.var 0)) .brk .pass) <|
-                  .seq (.expr (.probe 4 (.var 0))) <|
+                  .seq (.ite (.isNone 0 false) .brk .pass) <|
                   .seq (.ite (.isinst 0 1) .cont .pass) <|
                   .assign 0 (.attr (.var 0) 0))) <|
           .seq (.expr (.probe 5 (.var 0))) <|
